@@ -28,7 +28,7 @@ class Identifier(object):
         return self.uri == other.uri if isinstance(other, Identifier) else False
 
     def __hash__(self):
-        return hash((self.uri, self.__class__))
+        return hash(self.uri)
 
     def __repr__(self):
         return "<%s: %s>" % (self.__class__.__name__, self._uri)
